@@ -77,6 +77,8 @@ def _implies(have_op, have_rhs, want_op, want_rhs):
 
 def a_mtu_guard(prog):
     calls = [c for c in prog.callers_of(r"fragment::Fragments::<T>::make_fragments$")]
+    if not calls and "quic" not in (getattr(prog, "features", None) or ()):
+        return True, "the fragmenter has no caller in this build configuration (QUIC support is compiled out)"
     if not calls:
         return False, "no caller of Fragments::make_fragments found"
     for c in calls:
